@@ -49,9 +49,60 @@ func c09Case(w *core.Worker, i int) {
 		if (i/5)%3 == 1 {
 			c09WithClause(w, i)
 		}
+		if (i/5)%3 == 0 {
+			c09SelfInsert(w, i)
+		}
 		return
 	}
 	c09Schedules(w, i)
+}
+
+// c09SelfInsert: eight processes at once, each several times, insert into a table the next number read from that same table
+// (INSERT .. SELECT MAX(id) + 1 FROM the target, a scalar sub-query over the target inside VALUES). The read is part of the
+// statement that takes the table for update, so the committed numbers are 0, 1, 2, … without a gap or a repeat. The lock
+// acquisition is stretched a little (delay at lock.checked) so that the processes really meet.
+func c09SelfInsert(w *core.Worker, i int) {
+	d := core.FreshDir(w.Work, "selfins")
+	core.WriteFiles(d, map[string]string{"seq.csv": "id\n0\n"})
+	var wg sync.WaitGroup
+	var mu sync.Mutex
+	committed, outside := 0, 0
+	for c := 0; c < 8; c++ {
+		wg.Add(1)
+		go func(c int) {
+			defer wg.Done()
+			for s := 0; s < 5; s++ {
+				prog := []string{"INSERT INTO seq SELECT MAX(id) + 1 FROM seq;", "INSERT INTO seq (id) SELECT COUNT(*) FROM seq;", "INSERT INTO seq VALUES ((SELECT MAX(id) FROM seq) + 1);", "INSERT INTO seq SELECT MAX(x.id) + 1 FROM seq x JOIN seq y ON x.id = y.id;"}[(c+s)%4]
+				res := core.RunProc(core.ProcOpts{Dir: d, Args: csvqArgs("-q", "--wait-timeout", "30", prog), Env: []string{fmt.Sprintf("VERIF_DELAY=lock.checked=%d", 2+(c+s)%5)}, Timeout: 120 * time.Second})
+				mu.Lock()
+				if res.KilledFromOutside() {
+					outside++
+				} else if res.Code == 0 {
+					committed++
+				}
+				mu.Unlock()
+			}
+		}(c)
+	}
+	wg.Wait()
+	if outside > 0 {
+		w.Inconclusive("processes of the self-reading-insert round were ended from outside the case")
+		return
+	}
+	sq := core.RunProc(core.ProcOpts{Dir: d, Args: csvqArgs("-q", "-f", "CSV", "--without-header", "SELECT id FROM seq ORDER BY id;")})
+	ids := strings.Fields(strings.TrimSpace(sq.Stdout))
+	ok := len(ids) == committed+1
+	for j, x := range ids {
+		if x != strconv.Itoa(j) {
+			ok = false
+		}
+	}
+	if !ok {
+		w.Violation("stress:self-reading-insert", fmt.Sprintf("%d transactions that insert the next number into the table they read it from committed (plus the first row): the table holds %v", committed, ids), c09Replay{Kind: "self-reading insert", Detail: fmt.Sprint(ids)})
+	}
+	w.Count("self_reading_insert_rounds", 1)
+	w.Count("self_reading_inserts_committed_in_those_rounds", int64(committed))
+	w.Case(core.Digest("selfins", fmt.Sprint(i)), committed > 10)
 }
 
 const c09Counter = "id,n,m\n1,0,0\n"
@@ -69,7 +120,7 @@ type c09Op struct {
 func c09Stress(w *core.Worker, i int) {
 	r := w.Rng(i, "stress")
 	d := core.FreshDir(w.Work, "stress")
-	core.WriteFiles(d, map[string]string{"counter.csv": c09Counter, "log.csv": "c,s\n", "aux.csv": "id\n1\n", "noop.sql": "VAR @sourced := 1;\n"})
+	core.WriteFiles(d, map[string]string{"counter.csv": c09Counter, "log.csv": "c,s\n", "aux.csv": "id\n1\n", "noop.sql": "VAR @sourced := 1;\n", "seq.csv": "id\n0\n"})
 	trace := filepath.Join(w.Work, "stress.trace")
 	_ = os.Remove(trace)
 	profiles := []string{"", "lock.checked=2,rlock.lock_created=1", "lock.created=1,commit.removed=2,rlock.checked=1", "hold.x.begin=3,rlock.rlock_created=2,cf.closed=1"}
@@ -127,6 +178,10 @@ func c09Stress(w *core.Worker, i int) {
 				case k < 6:
 					op.kind = "incrb"
 					prog = fmt.Sprintf("UPDATE counter SET n = n + 1, m = m + 1; INSERT INTO log VALUES (%d, %d); ROLLBACK;", c, s)
+				case k == 7 && s%2 == 1:
+					// the statement reads the table it inserts into: the read belongs to the hold, so every committed row has its own number
+					op.kind = "insself"
+					prog = []string{"INSERT INTO seq SELECT MAX(id) + 1 FROM seq;", "INSERT INTO seq (id) SELECT COUNT(*) FROM seq;", "INSERT INTO seq VALUES ((SELECT MAX(id) FROM seq) + 1);"}[(s/2)%3]
 				case k < 8:
 					op.kind = "read"
 					prog = "SELECT n, m FROM counter;"
@@ -205,6 +260,26 @@ func c09Stress(w *core.Worker, i int) {
 		if !wantLog[k] {
 			rep("stress:phantom", fmt.Sprintf("log row %s belongs to a transaction that did not commit (rolled back or timed out)", k))
 		}
+	}
+	{
+		want := 1
+		for _, op := range ops {
+			if op.kind == "insself" && op.code == 0 {
+				want++
+			}
+		}
+		sq := core.RunProc(core.ProcOpts{Dir: d, Args: csvqArgs("-q", "-f", "CSV", "--without-header", "SELECT id FROM seq ORDER BY id;")})
+		ids := strings.Fields(strings.TrimSpace(sq.Stdout))
+		okSeq := len(ids) == want
+		for j, x := range ids {
+			if x != strconv.Itoa(j) {
+				okSeq = false
+			}
+		}
+		if !okSeq {
+			rep("stress:self-reading-insert", fmt.Sprintf("%d transactions that insert the next number into the table they read it from committed (plus the first row): the table holds %v", want-1, ids))
+		}
+		w.Count("stress_self_reading_inserts_committed", int64(want-1))
 	}
 	for _, op := range ops {
 		if op.kind == "read" && op.code == 0 {
